@@ -77,12 +77,11 @@ FIXED_CLS = 18
 # FINDINGS (wave 11): "removing an agent is idempotent" is violated by two library classes on /repo HEAD:
 #   ContinuousSpaceAgent.remove() a second time raises AttributeError (self.space is None by then),
 #   FixedAgent.remove() a second time raises ValueError (its cell is kept and cell.remove_agent(self) runs again).
-# Repairs in fixes/C02-2-*.diff and fixes/C02-3-*.diff.  Until they are in /repo the driver does not perform a second remove() of
-# such an agent (the model's remove is idempotent, so the observations agree); VERIF_C02_LIB_IDEMPOTENT=1 performs it
-# (then ./check C02 reports C02/Agent.remove/raised on the unrepaired tree).
+# Repaired in /repo by fixes/C02-2-*.diff and fixes/C02-3-*.diff; the driver performs the second remove() of such agents
+# (on a tree without the repairs ./check C02 reports C02/Agent.remove/raised).  VERIF_C02_LIB_IDEMPOTENT=0 switches it off.
 import os as _os2
 
-LIB_SECOND_REMOVE = _os2.environ.get("VERIF_C02_LIB_IDEMPOTENT") == "1"
+LIB_SECOND_REMOVE = _os2.environ.get("VERIF_C02_LIB_IDEMPOTENT", "1") != "0"
 OWN_ID = 15          # classes 13-16 (Spawner, Killer, OwnId, Dia) and RegModel: user code in the loop, oracle-only stream
 
 
